@@ -77,7 +77,7 @@ def add_stages(rng, case):
 
 
 def gen_outcomes(rng, n, p_ok=0.65):
-    return [('done:%d' % rng.randrange(8) if rng.random() < 0.9 else 'intstatus') if rng.random() < p_ok
+    return [('done:%d' % rng.randrange(8) if rng.random() < 0.8 else rng.choice(['intstatus', 'donenone'])) if rng.random() < p_ok
             else rng.choice(OUTCOMES[1:9]) + ':%d' % rng.randrange(63) for _ in range(n)]
 
 
@@ -216,6 +216,11 @@ CORPUS = [
      'runs': [{'outcomes': ['done:1', 'done:1'], 'strategy': 'uniform', 'seed': 27},
               {'outcomes': ['done:1', 'done:1'], 'lost': [0], 'strategy': 'uniform', 'seed': 28},
               {'outcomes': ['done:1', 'done:1'], 'lost': [], 'strategy': 'uniform', 'seed': 29}]},
+    # C04: a task without update (None, DONE) re-executed because its dependency was re-executed
+    {'n': 2, 'hard': [[], [0]], 'soft': [[], []], 'workers': 1,
+     'runs': [{'outcomes': ['done', 'donenone'], 'strategy': 'uniform', 'seed': 38},
+              {'outcomes': ['done', 'donenone'], 'lost': [0], 'strategy': 'uniform', 'seed': 39},
+              {'outcomes': ['done', 'donenone'], 'lost': [], 'strategy': 'uniform', 'seed': 40}]},
     # C03: scheduling directly on an environment that went through pickle
     {'n': 2, 'hard': [[], [0]], 'soft': [[], []], 'workers': 2,
      'runs': [{'outcomes': ['done', 'raise'], 'strategy': 'uniform', 'seed': 30},
